@@ -453,6 +453,24 @@ def frame_limit(rec, F):
     sites = F.callers.get(pf.path, [])
     rec.floor(R, "push_frame call sites", len(sites), 3)
     ops = []
+    # the test may live in Vm::push_frame itself (it then answers with the overflow signal): the real push
+    # (Fiber::push_frame) is dominated by it there, and every caller has to look at the answer
+    inner = None
+    for bi, t in pf.calls():
+        if t["f"] == "laythe_vm::fiber::Fiber::push_frame":
+            for w, d, o in sem.dominating_guards(F, pf, bi):
+                sd = str(d)
+                if d[0] == "bin" and ("MAX_FRAME_SIZE" in sd or "('const', 255)" in sd) and ("frames" in sd or "frame_count" in sd or "len" in sd) and d[1] not in ("Eq", "Ne"):
+                    inner = (bi, d[1], o)
+    if inner is not None and (pf.locals[0] or "").endswith("ExecutionSignal"):
+        for fn, bi in sites:
+            t = fn.blocks[bi]["t"]
+            dl = t["dest"]["l"]
+            used = dl == 0 or any(dl in [x["l"] for x in sem.places_in_rvalue(s_["r"])] for _, _, s_ in fn.stmts()) or any(op_local(a) == dl for _, t2 in fn.calls() for a in t2["args"]) or any(op_local(fn.blocks[b]["t"].get("on", {})) == dl for b in fn.reachable if fn.blocks[b]["t"]["k"] == "switch")
+            rec.inst(R, "push_frame@%s: overflow signal of push_frame is looked at" % fn.name, ok=used, loc=fn.loc, note="limit test inside Vm::push_frame")
+            if not used:
+                rec.finding(R, "F4.frames/unguarded/%s" % fn.name, "%s pushes a call frame with no dominating frame-limit test: Vm::push_frame answers with the overflow signal but %s drops it and carries on - recursion through this site is unbounded (host stack overflow)" % (fn.name, fn.name), loc=fn.loc, fn=fn.path)
+        return
     for fn, bi in sites:
         gs = sem.dominating_guards(F, fn, bi)
         g = None
